@@ -112,16 +112,21 @@ def rule_N1(ctx):
             cfg = ctx.cfg(fn, "N1")
             dom = cfg.dominators(skip_labels=("exc",))
             lid = cfg.nid(loop)
-            # the threaded variable is what is returned or cached afterwards, on every normal path that realises
+            # the threaded variable is what is returned or cached afterwards, on every normal path that realises; a plain copy made
+            # after the loop (`result = var`) carries the same value
+            aliases = {var}
+            for n in sorted([a_ for a_ in own_nodes(fn) if isinstance(a_, ast.Assign) and a_.lineno > loop.lineno], key=lambda a_: a_.lineno):
+                if len(n.targets) == 1 and isinstance(n.targets[0], ast.Name) and isinstance(n.value, ast.Name) and n.value.id in aliases and lid in dom.get(cfg.nid(n), set()):
+                    aliases.add(n.targets[0].id)
             sinks = []
             for n in own_nodes(fn):
-                if isinstance(n, ast.Return) and isinstance(n.value, ast.Name) and n.value.id == var:
+                if isinstance(n, ast.Return) and isinstance(n.value, ast.Name) and n.value.id in aliases:
                     sinks.append(n)
                 if isinstance(n, ast.Assign) and isinstance(n.targets[0], ast.Attribute):
                     v = n.value
                     if isinstance(v, ast.Call) and isinstance(v.func, ast.Name) and v.func.id == "cast" and len(v.args) == 2:
                         v = v.args[1]
-                    if isinstance(v, ast.Name) and v.id == var:
+                    if isinstance(v, ast.Name) and v.id in aliases:
                         sinks.append(n)
             good = [s for s in sinks if lid in dom.get(cfg.nid(s), set()) and s.lineno > loop.lineno]
             if good:
